@@ -38,7 +38,7 @@ func matchKnown(in inst, cn compiler.Name, m mutation, violation, panicMsg strin
 // goroutine of an n-ary composition (observed: and^2(or^2(S)) under Fiat-Shamir with Z[i] = null dies in
 // sigor.(*Protocol).Verify called from sigand.(*Protocol).Verify.func1). They are excluded without being run.
 func crashRisk(in inst, m mutation) bool {
-	if m.op != "null" && m.op != "map-drop" {
+	if (m.op != "null" && m.op != "map-drop") || runCrashRisk() {
 		return false
 	}
 	sh := in.Shape()
